@@ -67,6 +67,18 @@ func (c *Ctx) decodeScope() []*ssa.Function {
 			for _, in := range b.Instrs {
 				if ci, ok := in.(ssa.CallInstruction); ok {
 					visit(calleeFunc(ci))
+					if calleeFunc(ci) == nil {
+						// interface method or function value: every candidate of package decoder (CHA)
+						if _, isBuiltin := ci.Common().Value.(*ssa.Builtin); !isBuiltin {
+							if n := c.chaGraph().Nodes[f]; n != nil {
+								for _, e := range n.Out {
+									if e.Site == ci && e.Callee.Func != nil {
+										visit(e.Callee.Func)
+									}
+								}
+							}
+						}
+					}
 				}
 				for _, op := range in.Operands(nil) {
 					if *op == nil {
